@@ -1,0 +1,131 @@
+//go:build verif
+
+// Verification-only exports for property C27 (build tag `verif`). Add-only: nothing in
+// this file is compiled without the tag, and no existing line of the package is changed.
+
+package tls
+
+import (
+	"crypto/cipher"
+	"encoding/binary"
+	"fmt"
+)
+
+// VerifSuiteRow is one row of a TLS 1.0-1.2 cipher-suite table as the code has it now,
+// together with facts obtained by running the row's own constructors on inputs of the
+// lengths the row declares.
+type VerifSuiteRow struct {
+	ID                         uint16
+	KeyLen, MacLen, IVLen      int
+	Flags                      int
+	HasCipher, HasMac, HasAead bool   // the function fields are non-nil
+	Kind                       string // dynamic kind of what MakeConnWithCompleteHandshake would install: aead | cbc | stream | none
+	BlockSize                  int    // cbcMode.BlockSize(), else 0
+	MacSize                    int    // mac(key).Size(), else 0
+	ExplicitNonce              int    // aead.explicitNonceLen(), else 0
+	Overhead                   int    // aead.Overhead(), else 0
+	CtorOK                     bool   // every constructor the row has ran without panicking
+	EncType, DecType           string // %T of cipher(key, iv, false) and cipher(key, iv, true)
+}
+
+func verifDescribeSuite(cs *cipherSuite) (row VerifSuiteRow) {
+	row = VerifSuiteRow{
+		ID: cs.id, KeyLen: cs.keyLen, MacLen: cs.macLen, IVLen: cs.ivLen, Flags: cs.flags,
+		HasCipher: cs.cipher != nil, HasMac: cs.mac != nil, HasAead: cs.aead != nil,
+		Kind: "none", EncType: "-", DecType: "-",
+	}
+	defer func() {
+		if recover() != nil {
+			row.CtorOK = false
+		}
+	}()
+	key, iv, mk := make([]byte, cs.keyLen), make([]byte, cs.ivLen), make([]byte, cs.macLen)
+	if cs.cipher != nil {
+		w := cs.cipher(key, iv, false)
+		r := cs.cipher(key, iv, true)
+		row.EncType, row.DecType = fmt.Sprintf("%T", w), fmt.Sprintf("%T", r)
+		switch c := w.(type) {
+		case cipher.Stream:
+			row.Kind = "stream"
+		case cbcMode:
+			row.Kind = "cbc"
+			row.BlockSize = c.BlockSize()
+		default:
+			row.Kind = "unknown"
+		}
+	} else if cs.aead != nil {
+		a := cs.aead(key, iv)
+		row.Kind = "aead"
+		row.ExplicitNonce = a.explicitNonceLen()
+		row.Overhead = a.Overhead()
+	}
+	if cs.mac != nil {
+		row.MacSize = cs.mac(mk).Size()
+	}
+	row.CtorOK = true
+	return row
+}
+
+// VerifSuiteTable dumps a suite table: "upstream" = cipherSuites, anything else =
+// utlsSupportedCipherSuites (what cipherSuiteByID, hence MakeConnWithCompleteHandshake,
+// searches) in its current state, i.e. after EnableWeakCiphers if that has been called.
+func VerifSuiteTable(which string) []VerifSuiteRow {
+	tbl := utlsSupportedCipherSuites
+	if which == "upstream" {
+		tbl = cipherSuites
+	}
+	rows := make([]VerifSuiteRow, 0, len(tbl))
+	for _, cs := range tbl {
+		rows = append(rows, verifDescribeSuite(cs))
+	}
+	return rows
+}
+
+// VerifSuiteIDsTLS13 lists the ids of cipherSuitesTLS13.
+func VerifSuiteIDsTLS13() []uint16 {
+	var ids []uint16
+	for _, cs := range cipherSuitesTLS13 {
+		ids = append(ids, cs.id)
+	}
+	return ids
+}
+
+// VerifHalfConnInfo is the observable record-layer state of one direction of a Conn.
+type VerifHalfConnInfo struct {
+	Seq        uint64
+	Version    uint16
+	CipherType string // %T of the installed cipher ("<nil>" if none)
+	HasMac     bool
+	HasNext    bool // a prepared but not yet activated cipher spec is pending
+}
+
+// VerifConnInfo is what MakeConnWithCompleteHandshake set up on a Conn.
+type VerifConnInfo struct {
+	In, Out           VerifHalfConnInfo
+	Vers, Suite       uint16
+	HaveVers          bool
+	HandshakeComplete bool
+	IsClient          bool
+}
+
+func verifHalf(hc *halfConn) VerifHalfConnInfo {
+	hc.Lock()
+	defer hc.Unlock()
+	return VerifHalfConnInfo{
+		Seq:        binary.BigEndian.Uint64(hc.seq[:]),
+		Version:    hc.version,
+		CipherType: fmt.Sprintf("%T", hc.cipher),
+		HasMac:     hc.mac != nil,
+		HasNext:    hc.nextCipher != nil,
+	}
+}
+
+// VerifForgeInfo reports the record-layer state of c (sequence numbers, versions, the
+// dynamic type of the installed ciphers).
+func VerifForgeInfo(c *Conn) VerifConnInfo {
+	return VerifConnInfo{
+		In: verifHalf(&c.in), Out: verifHalf(&c.out),
+		Vers: c.vers, Suite: c.cipherSuite, HaveVers: c.haveVers,
+		HandshakeComplete: c.isHandshakeComplete.Load(), IsClient: c.isClient,
+	}
+}
